@@ -4,7 +4,7 @@
 set -u
 D="$1"; shift
 W=$(mktemp -d /tmp/sv.XXXXXX)
-git -C /repo worktree add -q --detach "$W/t" HEAD || exit 3
+git -C /repo worktree add -q --detach "$W/t" ${BASE:-HEAD} || exit 3
 cp "$D/demo.py" "$W/demo.py"
 run_demo() { (cd "$W/t" && PYTHONPATH="$W/t" timeout 300 /venv/bin/python "$W/demo.py" >"$W/demo.out" 2>&1; echo $?); }
 echo "== demo on clean tree: exit $(run_demo) (want 0)"; tail -2 "$W/demo.out"
